@@ -222,3 +222,81 @@ func c07MultipartRounds(kind string, rng *Rng, nrounds int) {
 	}
 	s.end()
 }
+
+// c07VersionStress: many simultaneous versioned PUTs of one key and of several keys (memory
+// backend); every acknowledged upload must have got a version id of its own under which exactly
+// its bytes are served
+func c07VersionStress(rng *Rng, clients, perClient int) {
+	s := newSess("c07", "mem", SessOpts{})
+	emit("c07", "NOMODEL")
+	b := singleBucketName
+	s.MkBucket(b)
+	s.SetVersioning(b, true)
+	type ack struct {
+		key, vid string
+		body     []byte
+	}
+	acks := make([][]ack, clients)
+	var wg sync.WaitGroup
+	start := make(chan struct{})
+	for c := 0; c < clients; c++ {
+		wg.Add(1)
+		go func(c int) {
+			defer wg.Done()
+			<-start
+			for i := 0; i < perClient; i++ {
+				key := "hot"
+				if i%3 == 2 {
+					key = fmt.Sprintf("k%d", c%3)
+				}
+				body := []byte(fmt.Sprintf("client-%d-upload-%d", c, i))
+				r := do(s.h, Req{Method: "PUT", Path: "/" + b + "/" + key, Body: body})
+				if r.Status == 200 {
+					acks[c] = append(acks[c], ack{key, r.Header.Get("x-amz-version-id"), body})
+				}
+			}
+		}(c)
+	}
+	close(start)
+	done := make(chan struct{})
+	go func() { wg.Wait(); close(done) }()
+	if !waitOr(done, 30*time.Second) {
+		emit("c07", "HANG", hs("simultaneous versioned PUTs did not complete"))
+		return
+	}
+	seen := map[string]string{}
+	bad := 0
+	for c := range acks {
+		for _, a := range acks[c] {
+			if a.vid == "" {
+				emit("c07", "BAD", hs("an acknowledged versioned PUT carries no version id"))
+				bad++
+				continue
+			}
+			if prev, dup := seen[a.vid]; dup {
+				emit("c07", "BAD", hs(fmt.Sprintf("version id %s was handed to two acknowledged uploads (%s and %s)", a.vid, prev, string(a.body))))
+				bad++
+			}
+			seen[a.vid] = string(a.body)
+		}
+	}
+	for c := range acks {
+		for _, a := range acks[c] {
+			if a.vid == "" {
+				continue
+			}
+			r := do(s.h, Req{Method: "GET", Path: "/" + b + "/" + a.key + "?versionId=" + queryEscape(a.vid)})
+			if r.Status != 200 || string(r.Body) != string(a.body) {
+				emit("c07", "BAD", hs(fmt.Sprintf("GET %s?versionId=%s answers %d %q, the upload acknowledged with that id was %q", a.key, a.vid, r.Status, truncate(r.Body, 60), string(a.body))))
+				bad++
+			}
+			if bad > 5 {
+				break
+			}
+		}
+	}
+	stat("version-stress-acknowledged-puts")
+	nontrivial(fmt.Sprint("vstress", clients, perClient))
+	emit("c07", "GOOD", hs(fmt.Sprintf("%d simultaneous versioned uploads: ids distinct, each id serves its own bytes", len(seen))))
+	s.end()
+}
